@@ -268,7 +268,8 @@ func typeSerializer(t dsl.Type, contextNamespace string, namedType *dsl.NamedTyp
 			}
 
 			unionClassName, typeParameters := common.UnionClassName(t)
-			if namedType != nil {
+			if namedType != nil && common.IsUnionOfNamedType(namedType, t) {
+				// (only the union that the named type itself defines goes by its name; one nested deeper has its own class)
 				unionClassName = namedType.Name
 				if namedType.Namespace != contextNamespace {
 					unionClassName = fmt.Sprintf("%s.%s", common.NamespaceIdentifierName(namedType.Namespace), unionClassName)
